@@ -222,8 +222,12 @@ Proof.
         try reflexivity; unfold ci_equal; cbn; intros H; discriminate H.
   - repeat constructor.
   - repeat constructor; unfold name_le; vm_compute; intros H; discriminate H.
-  - intros n Hn. cbn in Hn. repeat (destruct Hn as [<-|Hn]; [|]); try contradiction;
-      (split; [vm_compute; discriminate|vm_compute; repeat constructor; discriminate]).
+  - intros n Hn. cbn [In] in Hn.
+    repeat (destruct Hn as [<-|Hn]; [|]); try contradiction;
+      match goal with
+      | |- context [types_at ?nd ?x] =>
+          let v := eval vm_compute in (types_at nd x) in change (types_at nd x) with v
+      end; (split; [discriminate|repeat (constructor; [lia|]); constructor]).
   - vm_compute. reflexivity.
   - apply Permutation_cons_app with (l1 := [[[101; 120]; []]; [[115]; [101; 120]; []]; [[110]; [115]; [101; 120]; []]]) (l2 := []).
     rewrite app_nil_r. reflexivity.
